@@ -241,6 +241,8 @@ def tobool(x):
     """x: bool | SymBool -> z3 Bool"""
     if isinstance(x, SymBool):
         return x.e
+    if isinstance(x, z3.BoolRef):
+        return x
     return z3.BoolVal(bool(x))
 
 
